@@ -581,6 +581,13 @@ func judge(r *vh.Run, e *env, c hostCase, res hsResult) (ok bool, serial string)
 			c.Want, err, leaf.Subject.CommonName, leaf.DNSNames, leaf.IPAddresses, leaf.NotBefore.Format(time.RFC3339), leaf.NotAfter.Format(time.RFC3339)), nil)
 		return false, ""
 	}
+	// "valid for exactly that host": the certificate verifies for the requested
+	// host (above) and names nothing else — one subject alternative name in all.
+	if n := len(leaf.DNSNames) + len(leaf.IPAddresses) + len(leaf.EmailAddresses) + len(leaf.URIs); n != 1 {
+		r.ViolationCase(c, "C06:extra-names:"+classHead(c.Class), fmt.Sprintf("certificate presented for %q is valid for %d names, not exactly that host: DNS=%v IP=%v email=%v URI=%v",
+			c.Want, n, leaf.DNSNames, leaf.IPAddresses, leaf.EmailAddresses, leaf.URIs), nil)
+		return false, ""
+	}
 	if len(leaf.Subject.Organization) != 1 || leaf.Subject.Organization[0] != c.Org {
 		r.ViolationCase(c, "C06:organization:"+classHead(c.Class), fmt.Sprintf("certificate organization %v, configured %q", leaf.Subject.Organization, c.Org), nil)
 		return false, ""
